@@ -199,3 +199,24 @@ func instances(h *Sx, terms []skolem, limit int) []*Sx {
 	walk(h, nil)
 	return out
 }
+
+// selectIndices collects the index terms I of sub-terms (select X I) whose index is not a literal.
+func selectIndices(f *Sx, out map[string]bool) {
+	if f.L == nil {
+		return
+	}
+	if f.head() == "select" && len(f.L) == 3 && (f.L[1].head() == "select" || strings.HasPrefix(f.L[1].Atom, "A_")) {
+		idx := f.L[2].String()
+		if !strings.HasPrefix(idx, "(_ bv") && !strings.HasPrefix(idx, "#") {
+			if _, isInt := intLitBig(idx); !isInt {
+				out[idx] = true
+			}
+		}
+	}
+	if f.head() == "forall" || f.head() == "exists" {
+		return // indices under binders mention bound variables
+	}
+	for _, c := range f.L {
+		selectIndices(c, out)
+	}
+}
